@@ -26,7 +26,10 @@ def main():
     detected = False
     try:
         subprocess.run(["git", "-C", "/repo", "worktree", "add", "--detach", "-q", wt, "HEAD"], check=True)
-        subprocess.run(["git", "-C", wt, "apply", patch], check=True)
+        if subprocess.run(["git", "-C", wt, "apply", patch], stderr=subprocess.DEVNULL).returncode != 0:
+            # the tree moved on (fix: commits near the patched lines): fall back to a fuzzy application of the same hunks
+            subprocess.run(["patch", "-p1", "-s", "-F3", "--no-backup-if-mismatch", "-d", wt, "-i", patch], check=True)
+            print("(patch applied with fuzz: /repo HEAD has moved since it was written)")
         env = dict(os.environ, VERIF_REPO=wt, VERIF_EVIDENCE_DIR=out, VERIF_REPLAY_DIR=out)
         for pid in ids:
             p = subprocess.run([os.path.join(VERIF, "check"), pid, "--tier", tier], env=env, cwd=VERIF,
